@@ -54,24 +54,3 @@ Example c17_ex_batches :
   r = IncOk /\ map (fun c => match c with AAttach _ ids _ => length ids | _ => 0%nat end) calls = [0; 0; 20; 20; 1]%nat
   /\ attached_ok calls = ex_ids.
 Proof. vm_compute. repeat split. Qed.
-
-(* ---------- the tie to the source: GeneratedCtl.v is re-derived from the Go source on every run (harness gen --out-ctl);
-   the decisions this property rests on, as the code states them today, are the model's ---------- *)
-From Esc Require Import GeneratedCtl proofs.GenCtlAgree proofs.GenCtlAgree_AwsInc.
-
-(* aws.go IncreaseSize refuses exactly when the model's aws_increase does, and otherwise goes on as the model does *)
-Theorem c17_src_guard : forall a d o,
-  match gen_IncreaseSize_guard a d with
-  | GRet [GE true] => exists er, aws_increase a d o = ([], IncErr er, a) /\ (er = ENonPositive \/ er = EBreachMax)
-  | GFall [] => (0 < d /\ a_desired a + d <= a_max a /\
-                aws_increase a d o =
-                (if fleet_mode a then one_shot a d o
-                 else if ao_setdesired_fail o then ([ASetDesired (a_name a) (a_desired a + d) false false], IncErr ESetDesired, a)
-                 else ([ASetDesired (a_name a) (a_desired a + d) false true], IncOk, a)))%Z
-  | _ => False
-  end.
-Proof. exact gen_IncreaseSize_guard_agree. Qed.
-Print Assumptions c17_src_guard.
-Theorem c17_src_guard_iff : forall a d, gen_IncreaseSize_guard a d = GRet [GE true] <-> (d <= 0 \/ a_max a < a_desired a + d)%Z.
-Proof. exact gen_IncreaseSize_guard_iff. Qed.
-Print Assumptions c17_src_guard_iff.
